@@ -346,7 +346,20 @@ pub fn drive_session(seed: u64, sessions: usize, sink: &mut Sink) -> usize {
     let mut rng = Rng::new(seed);
     let mut muts = 0;
     for si in 0..sessions {
-        let mut obj = match si % 6 { 3 => random_obj(&mut rng, true), 4 | 5 => random_log_obj(&mut rng), _ => random_obj(&mut rng, false) };
+        // a panic of the code under test ends the session, not the driver (the events so far are judged; panic-freedom
+        // itself is C16's, whose drivers record it)
+        muts += guarded(|| one_session(&mut rng, si, sink)).unwrap_or(0);
+        if hung() {
+            break;
+        }
+    }
+    muts
+}
+
+fn one_session(rng: &mut Rng, si: usize, sink: &mut Sink) -> usize {
+    let mut muts = 0;
+    {
+        let mut obj = match si % 6 { 3 => random_obj(rng, true), 4 | 5 => random_log_obj(rng), _ => random_obj(rng, false) };
         let (e, p) = obj.state();
         sink.ev(json!({"ev":"lib","op":"create","kind":obj.kind(),"ends":e,"pieces":p}));
         let steps = 2 + rng.below(10);
@@ -382,11 +395,11 @@ pub fn drive_session(seed: u64, sessions: usize, sink: &mut Sink) -> usize {
                 }
                 5 | 6 if obj.can_integrate() => {
                     let kx = if obj.kind() == "log" {
-                        if rng.bool() { ends[0] * (0.2 + 0.8 * rng.unit()) } else { arg_for(&mut rng, &obj, &ends) }
+                        if rng.bool() { ends[0] * (0.2 + 0.8 * rng.unit()) } else { arg_for(rng, &obj, &ends) }
                     } else if rng.bool() {
                         ends[0] - rng.unit()
                     } else {
-                        arg_point(&mut rng, &ends)
+                        arg_point(rng, &ends)
                     };
                     let k = Knot { x: kx, y: rng.nice() };
                     obj = obj.integrate(k);
@@ -396,7 +409,7 @@ pub fn drive_session(seed: u64, sessions: usize, sink: &mut Sink) -> usize {
                 }
                 7 => {
                     if let DynPw::Q(f) = &obj {
-                        let g = match random_obj(&mut rng, true) { DynPw::Q(g) => g, _ => unreachable!() };
+                        let g = match random_obj(rng, true) { DynPw::Q(g) => g, _ => unreachable!() };
                         let sub = rng.bool();
                         let r = combine_guarded(f, &g, sub);
                         let gd = DynPw::Q(g);
@@ -421,14 +434,14 @@ pub fn drive_session(seed: u64, sessions: usize, sink: &mut Sink) -> usize {
                     }
                 }
                 8 => {
-                    let x = arg_for(&mut rng, &obj, &ends);
+                    let x = arg_for(rng, &obj, &ends);
                     let y = obj.evaluate(x);
                     let m: Vec<usize> = each!(&obj, p => matching_pieces(p, x, y));
                     sink.ev(json!({"ev":"lib","op":"eval","x":jb(x),"y":jb(y),"match":m}));
                 }
                 11 => {
                     // the caller edits the object in place (public fields), between any two operations
-                    obj.edit(&mut rng);
+                    obj.edit(rng);
                     let (e, p) = obj.state();
                     sink.ev(json!({"ev":"lib","op":"edit","ends":e,"pieces":p}));
                 }
@@ -440,7 +453,7 @@ pub fn drive_session(seed: u64, sessions: usize, sink: &mut Sink) -> usize {
                         ($p:expr) => {{
                             let mut ev = PiecewiseEvaluator::new(&$p.segments);
                             for _ in 0..nq {
-                                let x = arg_for(&mut rng, &obj, &ends);
+                                let x = arg_for(rng, &obj, &ends);
                                 let y = ev.evaluate(x);
                                 let st = ev.verif_state();
                                 let m = matching_pieces($p, x, y);
@@ -453,7 +466,7 @@ pub fn drive_session(seed: u64, sessions: usize, sink: &mut Sink) -> usize {
                 }
                 _ => {
                     // an evaluate_v batch over non-decreasing points
-                    let mut xs: Vec<f64> = (0..1 + rng.below(6)).map(|_| arg_for(&mut rng, &obj, &ends)).collect();
+                    let mut xs: Vec<f64> = (0..1 + rng.below(6)).map(|_| arg_for(rng, &obj, &ends)).collect();
                     xs.sort_by(|a, b| a.partial_cmp(b).unwrap());
                     sink.ev(json!({"ev":"lib","op":"vstart"}));
                     let ys: Vec<f64> = each!(&obj, p => p.evaluate_v(xs.clone()).collect());
@@ -673,39 +686,48 @@ pub fn replay_lib(lines: &[Value], embeddings: &[(f64, f64)], sink: &mut Sink) -
                     "scale" => {
                         let s = rat(&o["s"], 1.0);
                         let assign = o["assign"].as_bool().unwrap_or((i + n) % 2 == 0) && obj.has_mul_assign();
-                        obj = obj.scale(s, assign);
+                        obj = match guarded(|| obj.clone().scale(s, assign)) { Ok(o) => o, Err(_) => break };
                         let (e, p) = obj.state();
                         sink.ev(json!({"ev":"lib","op":"scale","s":jb(s),"ends":e,"pieces":p}));
                     }
                     "neg" => {
-                        obj = obj.neg();
+                        obj = match guarded(|| obj.clone().neg()) { Ok(o) => o, Err(_) => break };
                         let (e, p) = obj.state();
                         sink.ev(json!({"ev":"lib","op":"neg","ends":e,"pieces":p}));
                     }
                     "translate" => {
                         let c = rat(&o["s"], sy);
-                        obj = obj.translate(c);
+                        obj = match guarded(|| obj.clone().translate(c)) { Ok(o) => o, Err(_) => break };
                         let (e, p) = obj.state();
                         sink.ev(json!({"ev":"lib","op":"translate","s":jb(c),"ends":e,"pieces":p}));
                     }
                     "derive" => {
-                        obj = obj.derive();
+                        obj = match guarded(|| obj.clone().derive()) { Ok(o) => o, Err(_) => break };
                         let (e, p) = obj.state();
                         sink.ev(json!({"ev":"lib","op":"derive","ends":e,"pieces":p}));
                     }
                     "editend" => {
-                        obj.set_end(o["i"].as_u64().unwrap() as usize - 1, rat(&o["e"], sx));
+                        // (the script is the MODEL's: if the real object has become shorter than the model's -- a defect
+                        //  the previous event already shows -- the rest of the script has nothing to run on)
+                        let ix = o["i"].as_u64().unwrap() as usize - 1;
+                        if ix >= obj.ends().len() {
+                            break;
+                        }
+                        obj.set_end(ix, rat(&o["e"], sx));
                         let (e, p) = obj.state();
                         sink.ev(json!({"ev":"lib","op":"edit","ends":e,"pieces":p}));
                     }
                     "pop" => {
+                        if obj.ends().len() <= 1 {
+                            break;
+                        }
                         obj.pop();
                         let (e, p) = obj.state();
                         sink.ev(json!({"ev":"lib","op":"edit","ends":e,"pieces":p}));
                     }
                     "integrate" => {
                         let k = Knot { x: rat(&o["kx"], sx), y: rat(&o["ky"], sy) };
-                        obj = obj.integrate(k);
+                        obj = match guarded(|| obj.clone().integrate(k)) { Ok(o) => o, Err(_) => break };
                         let (e, p) = obj.state();
                         sink.ev(json!({"ev":"lib","op":"integrate","kx":jb(k.x),"ky":jb(k.y),"kind":obj.kind(),"ends":e,"pieces":p}));
                     }
@@ -739,7 +761,9 @@ pub fn replay_lib(lines: &[Value], embeddings: &[(f64, f64)], sink: &mut Sink) -
                             j += 1;
                         }
                         let run: Vec<&Value> = ops[i..j].iter().collect();
-                        each!(&obj, p => run_readonly(p, &run, sx, sink));
+                        if guarded(|| each!(&obj, p => run_readonly(p, &run, sx, sink))).is_err() {
+                            break; // a panic of the code under test inside a read-only run: C16's drivers own that verdict
+                        }
                         n += j - i;
                         i = j;
                         continue;
